@@ -3,7 +3,9 @@ import time
 
 import conc
 import conn
+import hstress
 import inflight
+import shutdown
 from common import Scratch, Verdict, build_harness, log, write_evidence
 
 
@@ -31,12 +33,26 @@ def run_inflight(prop, tier):
             v.violation(x["sig"], x["detail"], x["replay"])
         for n in cc["notes"]:
             log("NOTE " + n[:800])
+        # free-running executions of the handler (no gates), judged by TLC: histories by InFlightLin, lock-level traces by InFlightHook
+        hs = hstress.run_hstress(s, tb, tier, prop)
+        for x in hs["violations"]:
+            v.violation(x["sig"], x["detail"], x["replay"])
         connres = None
+        sd = None
+        if prop == "C10":
+            # connection level: events, responses for unknown ids and a refused duplicate send mixed into Conn.tla sessions
+            connres = conn.run_conn(s, tier, tb, c10=True)
+            for x in connres["violations"]:
+                v.violation(x["sig"], x["detail"], x["replay"])
         if prop == "C16":
             # connection level: a fault (close of either side, context cancel, loss of the peer) at every step of every
             # Conn.tla session, on the three rigs
             connres = conn.run_conn(s, tier, tb, faults=True)
             for x in connres["violations"]:
+                v.violation(x["sig"], x["detail"], x["replay"])
+            # the windows narrower than a step: design check + free-running stress + trace validation
+            sd = shutdown.run_shutdown(s, tier, tb)
+            for x in sd["violations"]:
                 v.violation(x["sig"], x["detail"], x["replay"])
         if seq["drift"]:
             log("NOTE model drift: %d real traces differ from InFlightSeq but are accepted by InFlightAbs" % seq["drift"])
@@ -65,10 +81,20 @@ def run_inflight(prop, tier):
                    samples=seq["samples"][:3] + (connres["samples"][:1] if connres else []), runs=seq["runs"], model_drift=seq["drift"],
                    connection_level=(dict(states=connres["states"], sessions=connres["sessions"], replays=connres["evaluations"],
                                           runs=connres["runs"],
-                                          rule="every prefix of every Conn.tla session followed by one fault (close-client, close-server, "
+                                          rule="C10: Conn.tla sessions with server-pushed events, responses for stream ids no request carries and one "
+                                               "refused duplicate send, replayed on real connections (library client against a raw server and against the "
+                                               "library server) for every version and compression: each response reaches the request with its stream id, "
+                                               "each event the event channel, nothing else anything" if prop == "C10" else
+                                               "every prefix of every Conn.tla session followed by one fault (close-client, close-server, "
                                                "cancel, drop) replayed on real connections for every version and compression: pending requests "
                                                "closed with an error, blocked receivers return, later sends refused, Close returns (twice), "
                                                "no goroutine survives") if connres else None),
+                   free_running=dict({k: hs[k] for k in hs if k != "violations"},
+                                     rule="harness/handlerstress_test.go: senders and the receive loop run unsynchronised on the real handler; small rounds: "
+                                          "call/return history stamped from one atomic counter, validated by InFlightLin.tla against InFlightAbs; big rounds "
+                                          "(N >= 64, table filled and drained in bursts): inflight.add / inflight.remove trace points (emitted under the "
+                                          "handler's lock, with the table size) validated by InFlightHook.tla"),
+                   shutdown_level=({k: sd[k] for k in sd if k != "violations"} if sd else None),
                    known_findings=sorted(v.known_hits))
         write_evidence(prop, tier, "model_checking", cov, time.time() - t0, unlisted,
                        assumptions=["TLC 1.8.0", "Go runtime testing/synctest fake clock (go1.26.8)",
